@@ -1396,6 +1396,50 @@ func main() {
 			}
 			honestNext(1)
 			accepted = append(accepted, h.step(p, bz, "replay of step 0"))
+		case "forge-redundant":
+			// fields of a message that DUPLICATE what a signed payload determines (MsgEthereumTx.Hash): after A's genuine
+			// transaction of step 0 has been processed (process-wide caches are warm), a raw transaction signed by the
+			// ATTACKER's key, naming A as sender, nonce = A's current sequence, carries (a) its own honest hash, (b) the hash
+			// of A's genuine transaction, (c) garbage; then A's own next genuine transaction with each spelling of the field
+			if raw0 := rawOf(p); raw0 != nil {
+				var e0 ethtypes.Transaction
+				borrowed := ""
+				if rlp.DecodeBytes(raw0, &e0) == nil {
+					borrowed = e0.Hash().Hex()
+				}
+				for k, variant := range []string{"honest", "borrowed", "garbage", "empty"} {
+					for _, who := range []string{"attacker", "owner"} {
+						ex, _, seq := h.accState(A)
+						if !ex {
+							continue
+						}
+						signer := kX
+						if who == "owner" {
+							signer = A.key.single()
+						}
+						data := h.rawEth(signer, seq, ethChainID, common.BytesToAddress(kX.caddr), int64(11+k), false)
+						var et ethtypes.Transaction
+						hash := ""
+						if rlp.DecodeBytes(data, &et) == nil {
+							hash = et.Hash().Hex()
+						}
+						switch variant {
+						case "borrowed":
+							hash = borrowed
+						case "garbage":
+							hash = "0xdeadbeefdeadbeefdeadbeefdeadbeefdeadbeefdeadbeefdeadbeefdeadbeef"
+						case "empty":
+							hash = ""
+						}
+						q := &txPlan{memo: fmt.Sprintf("h%d.redundant.%s.%s", h.id, variant, who), fee: p.fee,
+							msgs:  []sdk.Msg{&tokenstypes.MsgEthereumTx{TxType: "NativeSend", Sender: A.addr.String(), Hash: hash, Data: data}},
+							slots: []slotT{{attach: p.slots[p.victim].attach, mode: signing.SignMode_SIGN_MODE_DIRECT, seq: seq, sig: []byte(fmt.Sprintf("redundant-field-slot-noise-%03d-redundant-field-slot-noise-0123456789", k))[:65]}}}
+						qbz, _, _ := h.encode(q)
+						accepted = append(accepted, h.step(q, qbz, "raw tx signed by the "+who+", Hash field: "+variant))
+					}
+				}
+			}
+			accepted = append(accepted, h.step(p, bz, "replay of step 0"))
 		case "replay-weak":
 			// settings changed mid-history: the network turns weak after step 0; replay, honest follow-up, replay; back
 			gk := w.app.CustomGovKeeper
@@ -1533,7 +1577,7 @@ func main() {
 	attaches := []string{"none", "right", "wrong", "ed"}
 	accts := []string{"new", "onrecord", "eth-new", "eth-onrecord"}
 	acctsAll := []string{"new", "onrecord", "eth-new", "eth-onrecord", "multisig-new", "multisig-onrecord"}
-	follows := []string{"none", "replay", "next-replay", "resequence", "replay-weak", "inner-rewrap"}
+	follows := []string{"none", "replay", "next-replay", "resequence", "replay-weak", "inner-rewrap", "forge-redundant"}
 
 	// ---- probes: which variant of the code is running (model selection; the whole run must then
 	// agree with that variant).  Both use an eth-style account with its key on record.
@@ -1709,6 +1753,15 @@ func main() {
 					run(scenario{Msg: "ethereum_tx", Mode: md, Attach: "right", Acct: ac, Strategy: "honest", Follow: "inner-rewrap", BAcct: bac, Env: env})
 					run(scenario{Msg: "ethereum_tx", Mode: md, Attach: "right", Acct: ac, Strategy: "inner-fresh-first", Follow: "inner-rewrap", BAcct: bac, Env: env})
 				}
+			}
+		}
+	}
+	// ---- systematic part 5g: redundant message fields (MsgEthereumTx.Hash) honest / borrowed from an accepted transaction /
+	// garbage / empty, on forged and on genuine raw transactions, after a genuine one has been processed
+	for _, env := range []string{"", "custody", "execfee"} {
+		for _, ac := range []string{"eth-onrecord", "eth-new"} {
+			for _, at := range []string{"none", "right", "wrong"} {
+				run(scenario{Msg: "ethereum_tx", Mode: "raw-eth", Attach: at, Acct: ac, Strategy: "honest", Follow: "forge-redundant", Env: env})
 			}
 		}
 	}
